@@ -90,12 +90,17 @@ def rows (guarded : Bool) (k : Kind) (parts : Array Bytes) : Nat → Nat → M (
 
 def crlf : Bytes := [0x0D, 0x0A]
 
-def fromString (guarded : Bool) (k : Kind) (encoded : Bytes) : M (List PatchEntry) := do
-  let parts := splitStr crlf encoded
+/-- upper end of the row range: `parts.len() - 2` (pinned) / `parts.len().saturating_sub(2)` (fixed) -/
+def rowsEnd (guarded : Bool) (n : Nat) : M Nat :=
+  if guarded then pure (n - 2) else Arith.subUsize n 2
+
+def fromParts (guarded : Bool) (k : Kind) (parts : Array Bytes) : M (List PatchEntry) := do
   M.alloc (32 * parts.size)
-  -- `5..parts.len() - 2` (pinned) / `5..parts.len().saturating_sub(2)` (fixed)
-  let hi ← if guarded then pure (parts.size - 2) else Arith.subUsize parts.size 2
-  rows guarded k parts (hi - 5) 5
+  let hi ← rowsEnd guarded parts.size
+  rows guarded k parts (hi - 5) 5                       -- `for i in 5..hi`
+
+def fromString (guarded : Bool) (k : Kind) (encoded : Bytes) : M (List PatchEntry) :=
+  fromParts guarded k (splitStr crlf encoded)           -- `encoded.split("\r\n").collect()`
 
 def digest (ps : List PatchEntry) : Bytes :=
   dNat ps.length ++ ps.flatMap (fun p => dBytes p.url ++ dBytes p.version ++ dInt p.hashBlockSize ++
@@ -123,17 +128,21 @@ def joinComma : List Bytes → Bytes
   | [h] => h
   | h :: r => h ++ [0x2C] ++ joinComma r
 
+/-- the `if patch_type == PatchListType::Game { .. }` part of a row -/
+def hashPart (guarded : Bool) (k : Kind) (p : PatchEntry) : M Bytes :=
+  match k with
+  | .boot => pure []
+  | .game =>
+    if guarded then pure (str "sha1" ++ tab ++ intDec p.hashBlockSize ++ tab ++ joinComma p.hashes ++ tab)
+    else do
+      let h0 ← Sl.index p.hashes 0                     -- `patch.hashes[0]`
+      let rest := (p.hashes.drop 1).flatMap (fun h => [0x2C] ++ h)
+      pure (str "sha1" ++ tab ++ intDec p.hashBlockSize ++ tab ++ h0 ++ rest ++ tab)
+
 def entryLine (guarded : Bool) (k : Kind) (p : PatchEntry) : M Bytes := do
-  let hashPart ← match k with
-    | .boot => pure []
-    | .game =>
-      if guarded then pure (str "sha1" ++ tab ++ intDec p.hashBlockSize ++ tab ++ joinComma p.hashes ++ tab)
-      else do
-        let h0 ← Sl.index p.hashes 0                     -- `patch.hashes[0]`
-        let rest := (p.hashes.drop 1).flatMap (fun h => [0x2C] ++ h)
-        pure (str "sha1" ++ tab ++ intDec p.hashBlockSize ++ tab ++ h0 ++ rest ++ tab)
+  let hp ← hashPart guarded k p
   pure (intDec p.length ++ tab ++ intDec p.sizeOnDisk ++ tab ++ str "0" ++ tab ++ str "0" ++ tab ++
-    p.version ++ tab ++ hashPart ++ p.url ++ crlf)
+    p.version ++ tab ++ hp ++ p.url ++ crlf)
 
 def entryLines (guarded : Bool) (k : Kind) : List PatchEntry → M Bytes
   | [] => pure []
